@@ -33,4 +33,22 @@ var plans = map[string]plan{
 		Rule: "outer case = generated subject package (14 types, most wrapped in a top-level pointer/slice/map, with clone and deepcopy); inner case = source value (nil/empty/shared substructure) and an independently drawn tree-shaped prior destination (pointer to arbitrary contents / slice of equal length / empty map); judged: structural equality, source snapshot unchanged, allocation sets disjoint, scribbling one side leaves the other's snapshot unchanged; non-trivial = source reaches a non-nil pointer/slice/map below the root and the prior destination differs from it; distinct by (type, source snapshot, prior destination snapshot)",
 		Assumptions: []string{"vref reference, Addrs and Scribble (self-tested)", "string bytes and zero-size allocations are not counted as shared memory"},
 	},
+	"C13": {
+		Quick:    tierPlan{Shards: 8, Checks: 1, Shrink: "45s", Limit: 20 * time.Minute},
+		Thorough: tierPlan{Shards: 16, Checks: 8, Shrink: "3m", Limit: 3 * time.Hour},
+		Rule: "outer case = generated subject package (14 element/key types with sort, keys, min/max list and two-value forms, compare, equal); inner case = one operation on a drawn list (nil, empty, 1-6 elements with identical and Equal-but-not-identical duplicates) or map; judged by permutation (multiset of bit-exact encodings, pointer identities), sortedness under derived Compare (natural < for basic types), exactly-once keys, membership + extremality of min/max, default on empty; non-trivial = list of >= 3 elements that is unsorted or has duplicates, map of >= 2 keys, any two-value call; distinct by (type, operation, encoding)",
+		Assumptions: []string{"vref reference (self-tested)", "derived Compare is judged by C03; here it is the order the statement refers to"},
+	},
+	"C14": {
+		Quick:    tierPlan{Shards: 8, Checks: 1, Shrink: "45s", Limit: 20 * time.Minute},
+		Thorough: tierPlan{Shards: 16, Checks: 8, Shrink: "3m", Limit: 3 * time.Hour},
+		Rule: "outer case = generated subject package (14 element types, ==-comparable and not, with contains, unique, set, union/intersect on lists and maps, filter, takewhile, all, any, equal); inner case = one operation on drawn lists with duplicates / Equal-but-not-identical elements / nil elements and a logging predicate from a small family; judged against a list/set reference model parameterised by derived Equal (cross-checked with the structural reference) and the predicate call log; non-trivial = list of >= 3 elements with a duplicate pair; distinct by (type, operation, encoding)",
+		Assumptions: []string{"vref reference (self-tested)", "pairs on which derived Equal and the reference disagree are skipped here (C02 judges them)"},
+	},
+	"C17": {
+		Quick:    tierPlan{Shards: 8, Checks: 1, Shrink: "45s", Limit: 20 * time.Minute},
+		Thorough: tierPlan{Shards: 16, Checks: 8, Shrink: "3m", Limit: 3 * time.Hour},
+		Rule: "outer case = generated subject package (14 element/result types with fmap over slices (two result types), fmap over strings, join of slices, join of strings); inner case = one call with a scripted, logging f on slices of length 0-6 (nil vs empty), slices of slices with nil/empty inner lists, strings over ASCII, 2-4 byte runes and invalid UTF-8; judged against map over the elements / []rune(s) and concatenation, call log in order, inputs unmodified; non-trivial = string whose byte length differs from its rune count, or slice of slices with an empty and a non-empty inner list, or fmap over >= 2 elements; distinct by input encoding",
+		Assumptions: []string{"vref encoder (self-tested)"},
+	},
 }
